@@ -124,6 +124,19 @@ func c17Scenarios(tier string) []*Scenario {
 					hs := nomd.Handler
 					w.Scripts["*"] = &hs
 					w.Join(w.Go("caller:r4", true, func() { w.RunCall(t.Conn, &nomd.Call) }))
+					// per-RPC credentials whose key collides with the caller's own metadata: the handler
+					// sees all of the RPC's request metadata
+					cr := mk("r6", 6, false)
+					cr.Call.Creds = testCreds{map[string]string{"own": "from-creds"}}
+					w.Join(w.StartCallers(t, []Workload{cr})...)
+					// a unary method driven through NewStream (generic clients and proxies do that):
+					// its stream context identifies the tunnel like any other
+					us := StdWorkload("r7", 7, "Unary", []int{3}, []int{3})
+					us.Call.MD = metadata.Pairs("own", "r7")
+					us.Call.ChanOpt = true
+					us.Call.Ops = []COp{{K: "new"}, {K: "send", Size: 3}, {K: "closesend"}, {K: "recvall"}, {K: "targets"}}
+					us.Handler.Ops = append([]HOp{{K: "readctx"}}, us.Handler.Ops...)
+					w.Join(w.StartCallers(t, []Workload{us})...)
 					// a unary RPC that fails: the caller can still tell which channel carried it
 					fail := StdWorkload("r5", 5, "Unary", []int{3}, []int{3})
 					fail.Call.ChanOpt = true
@@ -157,7 +170,7 @@ func c17Scenarios(tier string) []*Scenario {
 							bad("request-metadata", "ident:request-metadata-leak", "an RPC without request metadata was handed: "+e.Detail)
 						}
 					}
-					for _, id := range []string{"r1", "r2", "r3"} {
+					for _, id := range []string{"r1", "r2", "r3", "r6", "r7"} {
 						var ctxEv *Event
 						he := w.EventsOf("handler:" + id)
 						for i, e := range he {
@@ -186,7 +199,11 @@ func c17Scenarios(tier string) []*Scenario {
 						if got := field("tunmd", "peer"); got != mdString(want)+"/true" {
 							bad("tunnel-metadata", "ident:tunnel-metadata:"+id, fmt.Sprintf("handler %s: TunnelMetadataFromIncomingContext = %s, the tunnel was opened with %s", id, got, mdString(want)))
 						}
-						if got := field("md", "deadline"); got != mdString(metadata.Pairs("own", id)) {
+						wantMD := metadata.Pairs("own", id)
+						if id == "r6" {
+							wantMD = metadata.Pairs("own", id, "own", "from-creds")
+						}
+						if got := field("md", "deadline"); got != mdString(wantMD) {
 							bad("request-metadata", "ident:request-metadata:"+id, fmt.Sprintf("handler %s saw request metadata %s", id, got))
 						}
 						if mode == "F" {
